@@ -32,6 +32,8 @@ RICH_WARN = {
     "ligature_components": _rich_warn("cL = glyphid(8) {component.a = box(0, 0, 200m, 400m); component.b = box(200m, 0, 400m, 400m)};",
                                       "table(sub) c1 c4 > cL:(1 2) {component {a.ref = @1; b.ref = @2}} _; endtable;\n"),
     "bidi_mirroring": _rich_warn("cN = glyphid(9); cM = glyphid(8) {mirror.glyph = cN; mirror.isEncoded = 1};", "Bidi = true;\ntable(sub) c1 > c4; endtable;\n"),
+    "point_functions": _rich_warn("cP = glyphid(8) {p1 = point(10m, 20m); p2 = point(10m, 20m, 3m, 4m); p3 = gpoint(2); p4 = gpoint(3, 10m, 20m)}; cQ = glyphid(9) {q = gpoint(1, 2m, 3m)};",
+                                  "table(pos) cP cQ {attach {to = @1; at = p2; with = q}}; endtable;\n"),
     "collision_pass": _rich_warn("cC = glyphid(8..10) {collision.flags = 1};", "table(pos) pass(1) {CollisionFix = 2} c1 {shift.x = 5m}; endpass; endtable;\n"),
 }
 
